@@ -8,6 +8,7 @@ import (
 	"io"
 	"os"
 	"os/exec"
+	"regexp"
 	"runtime"
 	"strings"
 	"time"
@@ -188,6 +189,8 @@ func isoRun(dec string, inputSpec string, tyJSON []byte) (st string, alloc uint6
 // (the msgpack library reads a byte string of claimed length n in chunks and gives up at the end of input after about 3.4 MB, whatever n: a constant)
 const allocFixed, allocPerByte = 8 << 20, 8192
 
+var hugeExponent = regexp.MustCompile(`[0-9.][eE][+-]?[0-9]{5,}`)
+
 // decode17 runs one decoder on one input: isolated first, then (if it survived) in process for the detailed oracle
 func decode17(c *Ctx, dec string, input []byte, ty cty.Type, desc map[string]interface{}) (o out17, ok bool) {
 	var tyJSON []byte
@@ -196,6 +199,15 @@ func decode17(c *Ctx, dec string, input []byte, ty cty.Type, desc map[string]int
 	}
 	st, alloc, crashed, msg := isoRun(dec, hex.EncodeToString(input), tyJSON)
 	c.Count("decodes/" + dec)
+	if hugeExponent.Match(input) {
+		// KF-C17-6: a number text with an exponent of five or more digits is parsed by math/big through exact powers of
+		// ten: memory (and, for longer exponents, time and the process) goes with the exponent's value, not the input's size
+		if crashed || alloc > allocFixed+allocPerByte*uint64(len(input)) {
+			c.Fail("C17/number-exponent-resources", fmt.Sprintf("a %d-byte input holding a number with a huge exponent: %d bytes allocated, process ended: %v", len(input), alloc, crashed), desc)
+		}
+		c.Count("skipped_in_process/huge-exponent")
+		return o, false // (not decoded again inside this process)
+	}
 	if crashed {
 		c.Fail("C17/crash-"+dec, "the decoder terminated the process: "+msg, desc)
 		return o, false
@@ -218,6 +230,16 @@ func decode17(c *Ctx, dec string, input []byte, ty cty.Type, desc map[string]int
 		return o, true
 	}
 	c.Count("outcome/value")
+	if (dec == dJSONImplied || dec == dMPImplied) && len(input) < 4096 {
+		// the implied type is a function of the input: asked again (Go maps iterate in another order each time) it is the same
+		for k := 0; k < 5; k++ {
+			o2 := runDecoder(dec, input, ty)
+			if o2.panic || (o2.err != nil) || !sameTy(o2.t, o.t) {
+				c.Fail("C17/implied-type-depends-on-map-order", fmt.Sprintf("the same input gives %#v and then %#v (err=%v)", o.t, o2.t, o2.err), desc)
+				break
+			}
+		}
+	}
 	switch dec {
 	case dJSONValue, dMPValue:
 		c.wf(o.v, dec)
@@ -765,6 +787,15 @@ func corpusInputs() []corpus17 {
 		{dMPValue, []byte{0x82, 0xa1, 'a', 0x01, 0xa1, 'a', 0x02}, obj(map[string]cty.Type{"a": cty.Number, "b": cty.Number})},
 		{dMPValue, []byte{0x82, 0xa2, 0xc3, 0xa9, 0x01, 0xa3, 0x65, 0xcc, 0x81, 0x02}, obj(map[string]cty.Type{"\u00e9": cty.Number, "x": cty.Number})},
 		{dMPValue, []byte{0x92, 0x82, 0xa2, 0xc3, 0xa9, 0x01, 0xa3, 0x65, 0xcc, 0x81, 0x02, 0xc0}, cty.Tuple([]cty.Type{obj(map[string]cty.Type{"\u00e9": cty.Number, "x": cty.Number}), cty.String})},
+		// two spellings (precomposed, decomposed) of one property name with values of different types
+		{dJSONImplied, []byte("{\"\u00e9\":\"true\",\"e\u0301\":1}"), cty.DynamicPseudoType},
+		{dJSONImplied, []byte("{\"e\u0301\":[true],\"\u00e9\":\"x\",\"z\":null}"), cty.DynamicPseudoType},
+		{dJSONImplied, []byte("[{\"\u212b\":1,\"\u00c5\":\"s\"}]"), cty.DynamicPseudoType},
+		{dJSONImplied, []byte("{\"\u00e9\":1,\"e\u0301\":2}"), cty.DynamicPseudoType},
+		{dMPImplied, []byte{0x82, 0xa2, 0xc3, 0xa9, 0xa1, 'x', 0xa3, 0x65, 0xcc, 0x81, 0x01}, cty.DynamicPseudoType},
+		{dMPImplied, []byte{0x82, 0xa3, 0x65, 0xcc, 0x81, 0xc3, 0xa2, 0xc3, 0xa9, 0xa1, 'x'}, cty.DynamicPseudoType},
+		{dMPImplied, []byte{0x83, 0xa2, 0xc3, 0xa9, 0x01, 0xa1, 'k', 0xc0, 0xa3, 0x65, 0xcc, 0x81, 0x90}, cty.DynamicPseudoType},
+		{dMPImplied, []byte{0x91, 0x82, 0xa3, 0x65, 0xcc, 0x81, 0x01, 0xa2, 0xc3, 0xa9, 0xc2}, cty.DynamicPseudoType},
 		// type descriptors with optional attributes beside null / unknown / empty values
 		{dMPValue, wrapMP(tyOpt, 0xc0), cty.DynamicPseudoType},
 		{dMPValue, wrapMP(tyOpt, 0xd4, 0x00, 0x00), cty.DynamicPseudoType},
@@ -801,6 +832,8 @@ func genC17(c *Ctx, r *rng.R, i int) {
 		}
 		if o, ok := decode17(c, k.dec, k.input, k.ty, desc); ok {
 			switch k.dec {
+			case dMPImplied:
+				c.mpImpliedCase(k.input, o, "corpus", desc)
 			case dMPValue:
 				c.mpCases(k.input, k.ty, o, "corpus", desc)
 			default:
